@@ -252,9 +252,10 @@ def run_case(case):
         gen = case["gen"]
         for t in case["types"]:
             frames = []
-            for ln in case["lens"]:
-                frames.append(R.frame(gen, R.ADDR_CLIENT, 0x80, rnd.randrange(256), t,
-                                      _noise(rnd, ln)))
+            for ln in case["lens"] + ([255, 256, 300, 1027] if t % 16 == 5 else []):
+                to = R.ADDR_CLIENT if rnd.random() < 0.7 else rnd.randrange(256)
+                frames.append(R.frame(gen, to, rnd.choice([0x80, 0x90, rnd.randrange(256)]),
+                                      rnd.randrange(256), t, _noise(rnd, ln)))
             if t in REGISTERED[gen]:
                 # each on its own (a reject resets the connection)
                 for fr in frames:
